@@ -56,6 +56,31 @@ pub fn build_seeds(seed: u64) -> Vec<Seed> {
             }
         }
     }
+    // library-written packages with extreme summary values (the FFI layer formats them)
+    for (i, ns) in [
+        253_402_300_800i128 * 1_000_000_000,          // year 10000
+        1_600_000_000_000i128 * 1_000_000_000,        // year ~52000
+        (-11_644_473_600i128) * 1_000_000_000,        // 1601-01-01
+        (-11_644_473_600i128 + 1) * 1_000_000_000 - 1, // just after
+        0,
+    ]
+    .iter()
+    .enumerate()
+    {
+        let med = crate::medium::Medium::new();
+        if let Ok(mut p) = msi::Package::create(msi::PackageType::Installer, med.handle()) {
+            p.summary_info_mut().set_creation_time(crate::model::ns_to_time(*ns));
+            p.summary_info_mut().set_word_count(i32::MIN);
+            p.summary_info_mut().set_languages(&[msi::Language::from_code(65535), msi::Language::from_code(0)]);
+            p.summary_info_mut().set_arch("x64,Intel;é");
+            if p.flush().is_ok() {
+                let bytes = med.live();
+                if let Ok(raw) = fmt_codec::decode(&bytes) {
+                    out.push(Seed { bytes, raw, origin: format!("library, extreme summary {}", i) });
+                }
+            }
+        }
+    }
     // independently encoded databases, one per encoder option plus random ones
     let forced = crate::props::c02::FORCED;
     for (i, f) in forced.iter().enumerate() {
